@@ -118,3 +118,105 @@ def bitwalk(tier):
                        {"t": 500, "node": "B", "op": "start", "ca": 1, "delay": 0}]      # both claims cross on the bus
                 out.append({"dll": "j1939-21", "nodes": nodes, "ops": ops, "dur": 2_500_000, "expect": {"settled": True}})
     return out
+
+
+# --------------------------------------------------------------------------------------------- C05 / C14
+def le8(v):
+    return list(v.to_bytes(8, "little"))
+
+
+def responder_node(rng, name="R", maxcas=3):
+    """a stack with 0..maxcas CAs, each driven into a claim state by real claim traffic:
+    'none' (never started), 'veto' (waiting for veto when the probe arrives), 'normal', 'bypass',
+    'cannot' (fixed CA that lost to a lower NAME), 'moved' (arbitrary CA that lost and re-claimed pref+1)"""
+    n = rng.randint(0, maxcas)
+    cas, ops, states = [], [], []
+    used = set()
+    for k in range(1, n + 1):
+        st = rng.choice(["none", "veto", "normal", "normal", "bypass", "cannot", "moved"])
+        while True:
+            pref = rng.choice([0x10, 0x11, 0x80, 0x81, 0xC8, 0xF7, rng.randint(0, 253)])
+            if not ({pref, pref + 1} & used) and pref + 1 <= 253:
+                break
+        used |= {pref, pref + 1}
+        if st == "veto" and not (127 < pref < 248):
+            pref = 200 + 4 * k
+            used |= {pref, pref + 1}
+        name_kw = {"identity_number": 100 + k, "function": rng.choice([0, 5, 255])}
+        ca = {"pref": pref, "aac": 1 if st == "moved" else rng.choice([0, 0, 1]) if st != "cannot" else 0,
+              "bypass": st == "bypass", "name": name_kw}
+        cas.append(ca)
+        held = None
+        if st == "none":
+            pass
+        elif st == "veto":
+            ops.append({"t": 1_900_000, "node": name, "op": "start", "ca": k, "delay": 0})       # probe at 2.0 s: inside the veto wait
+        elif st in ("normal", "cannot", "moved"):
+            ops.append({"t": 0, "node": name, "op": "start", "ca": k, "delay": 0})
+            held = pref
+            if st in ("cannot", "moved"):
+                # a contender with the all-zero NAME (lower than any) claims the address at 1.0 s
+                cid = (6 << 26) | (0xEE << 16) | (0xFF << 8) | pref
+                ops.append({"t": 1_000_000, "node": name, "op": "inject", "id": cid, "data": [0] * 8})
+                held = None if st == "cannot" else pref + 1
+        elif st == "bypass":
+            held = pref
+        states.append({"st": st, "held": held, "pref": pref})
+    return {"name": name, "lat": rng.choice([1, 700, 3000]), "cas": cas}, ops, states
+
+
+PGNS = [0, 1, 0xFF, 0x100, 0xEA00, 0xEB00, 0xEC00, 0xEE00, 0xEEFF, 0xEF00, 0xF000, 0xFECA, 0xFFFF, 0x10000, 0x1EE00, 0x1FFFF,
+        0x20000, 0x2EE00, 0x3FFFF]
+
+
+def request_scenario(seed):
+    rng = random.Random(seed)
+    resp, ops, states = responder_node(rng, "R")
+    extra = []
+    if rng.random() < 0.5:
+        resp["lst"] = [{"tag": "i48", "kind": "int", "adr": 0x30}]
+    # requester: a CA with an address (bypass) or one that never claimed (only the address-claim PGN may be requested)
+    with_addr = rng.random() < 0.75
+    q = {"name": "Q", "lat": 900, "cas": [{"pref": 0x55, "aac": 0, "bypass": with_addr, "name": {"identity_number": 7}}]}
+    helds = [s["held"] for s in states if s["held"] is not None]
+    prefs = [s["pref"] for s in states]
+    t = 2_000_000
+    for i in range(rng.randint(1, 6)):
+        dest = rng.choice(helds + prefs + [255, 255, 254, 0x30, 0x77]) if (helds or prefs) else rng.choice([255, 254, 0x77])
+        pgn = rng.choice(PGNS + [rng.getrandbits(18)]) if with_addr else rng.choice([0xEE00, 0xEE00, 0xFECA])
+        ops.append({"t": t + 3000 * i, "node": "Q", "op": "send_request", "ca": 1, "dp": rng.choice([0, 0, 1]), "pgn": pgn, "dest": dest})
+    return {"dll": "j1939-21", "nodes": [resp, q], "ops": ops, "dur": 3_000_000, "seed": seed, "expect": {"settled": False}}
+
+
+def frame_scenario(seed, sweep=False):
+    """C05: single frames of every class, with every flag combination, to every destination class"""
+    rng = random.Random(seed)
+    resp, ops, states = responder_node(rng, "R")
+    if rng.random() < 0.6:
+        resp["lst"] = [{"tag": "i48", "kind": "int", "adr": 0x30}]
+    helds = [s["held"] for s in states if s["held"] is not None]
+    prefs = [s["pref"] for s in states]
+    t = 2_000_000
+    dests = list(range(256)) if sweep else [rng.choice(helds + prefs + [255, 254, 0x30, 0x77, rng.randint(0, 255)]) for _ in range(rng.randint(2, 10))]
+    pf0 = rng.choice([0xD0, 0x00, 0xEF, 0xC3])
+    for i, dest in enumerate(dests):
+        kind = rng.random()
+        sa = rng.choice([0x21, 0x21, 254, 0x10])
+        if sweep or kind < 0.5:
+            cid, d = (rng.randint(0, 7) << 26) | ((pf0 if sweep else rng.choice([0xD0, 0x00, 0xEF, 0xC3])) << 16) | (dest << 8) | sa, [rng.randint(0, 255) for _ in range(rng.randint(0, 8))]
+        elif kind < 0.65:
+            cid, d = (6 << 26) | (rng.choice([0xFE, 0xF0, 0xFF]) << 16) | (dest << 8) | sa, [1, 2, 3, 4, 5, 6, 7, 8]
+        elif kind < 0.85:
+            p = rng.choice([0xFECA, 0xEE00, 0x1FECA])
+            cid, d = (6 << 26) | (0xEA << 16) | (dest << 8) | sa, [p & 255, (p >> 8) & 255, p >> 16]
+        else:
+            cid, d = (6 << 26) | (0xEE << 16) | (0xFF << 8) | rng.choice(helds + prefs + [0x77]), le8(rng.getrandbits(63) | (1 << 20))
+        o = {"t": t + 2000 * i, "node": "R", "op": "inject", "id": cid, "data": d}
+        fl = rng.random()
+        if fl < 0.5:
+            o["flags"] = {"ext": True, "remote": False, "error": False}
+        elif fl < 0.8:
+            o["flags"] = {"ext": rng.random() < 0.5, "remote": rng.random() < 0.5, "error": rng.random() < 0.5}
+        ops.append(o)
+    return {"dll": "j1939-21", "nodes": [resp], "ops": ops, "dur": 2_000_000 + 2000 * len(dests) + 1_000_000, "seed": seed,
+            "expect": {"settled": False}}
